@@ -6,7 +6,13 @@ import "context"
 
 // Injected by the verification overlay (not part of the repository): runs one periodic round exactly as
 // the ticker loop does.
-func (c *HTTPHealthChecker) VerifPeriodicRound(ctx context.Context) { c.performHealthChecks(ctx) }
+func (c *HTTPHealthChecker) VerifPeriodicRound(ctx context.Context) {
+	// the loop's own three statements (healthCheckLoop, case <-c.ticker.C): a context per tick, cancelled as soon as
+	// the round returns - whatever the round started asynchronously outlives that context
+	checkCtx, cancel := context.WithTimeout(context.Background(), DefaultHealthCheckInterval/2)
+	c.performHealthChecks(checkCtx)
+	cancel()
+}
 
 // VerifCheckAll checks every endpoint now, whatever its NextCheckTime, as the forced RunHealthCheck does
 // (which additionally needs the ticker loop to be running).
